@@ -105,6 +105,9 @@ func mustWorld() *World {
 		for _, p := range w.PureUnverified {
 			fmt.Fprintln(os.Stderr, "pure/assigns-nothing declaration not confirmed by the effect analysis:", p)
 		}
+		for _, u := range w.Contracts.Unbound {
+			fmt.Fprintln(os.Stderr, "unbound contract:", u)
+		}
 		fmt.Fprintf(os.Stderr, "loaded in %v: %d functions, %d contracts (%d unbound)\n", time.Since(t0), len(w.AllFns), len(w.Contracts.ByKey), len(w.Contracts.Unbound))
 	}
 	return w
